@@ -248,7 +248,7 @@ func (j *job) replay(ctx *vrun.Ctx, st *stats, behaviours [][]tla.State) error {
 			return
 		}
 		s := &session{ctx: ctx, id: fmt.Sprintf("%s-%d", j.name, i), pair: pickPairing(i, b[0]),
-			rng: ctx.Rand(fmt.Sprintf("%s-%d", j.name, i)), realRI: j.realRI}
+			rng: ctx.Rand(fmt.Sprintf("%s-%d", j.name, i)), realRI: j.realRI, job: j.name}
 		if err := s.run(b); err != nil {
 			firstErr.CompareAndSwap(nil, err)
 			return
